@@ -1738,6 +1738,12 @@ func (l *lexer) lexInterpretedString() error {
 	// it finds a Unicode character that is not valid in a string.
 	cols := 1
 	p := 1
+	// errorAt returns a syntax error at the p-th byte of the string.
+	errorAt := func(format string, a ...any) error {
+		l.src = l.src[p:]
+		l.column += cols
+		return l.errorf(format, a...)
+	}
 LOOP:
 	for {
 		if p == len(l.src) {
@@ -1771,13 +1777,11 @@ LOOP:
 					case 'A' <= c && c <= 'F':
 						r += rune(c - 'A' + 10)
 					default:
-						l.src = l.src[p:]
-						return l.errorf("invalid character %q in hexadecimal escape", c)
+						return errorAt("invalid character %q in hexadecimal escape", c)
 					}
 				}
 				if 0xD800 <= r && r < 0xE000 || r > '\U0010FFFF' {
-					l.src = l.src[p:]
-					return l.errorf("escape is invalid Unicode code point U+%X", r)
+					return errorAt("escape is invalid Unicode code point U+%X", r)
 				}
 				p += 2 + n
 				cols += 2 + n
@@ -1787,12 +1791,10 @@ LOOP:
 			case 'x':
 				for i := range 2 {
 					if p+2+i == len(l.src) {
-						l.src = l.src[p:]
-						return l.errorf("string not terminated")
+						return errorAt("string not terminated")
 					}
 					if c := l.src[p+2+i]; !isHexDigit(c) {
-						l.src = l.src[p:]
-						return l.errorf("invalid character %q in hexadecimal escape", c)
+						return errorAt("invalid character %q in hexadecimal escape", c)
 					}
 				}
 				p += 4
@@ -1801,35 +1803,29 @@ LOOP:
 				r := rune(c - '0')
 				for i := range 2 {
 					if p+2+i == len(l.src) {
-						l.src = l.src[p:]
-						return l.errorf("string not terminated")
+						return errorAt("string not terminated")
 					}
 					r = r * 8
 					c = l.src[p+2+i]
 					if c < '0' || c > '7' {
-						l.src = l.src[p:]
-						return l.errorf("invalid character %q in octal escape", c)
+						return errorAt("invalid character %q in octal escape", c)
 					}
 					r += rune(c - '0')
 				}
 				if r > 255 {
-					l.src = l.src[p:]
-					return l.errorf("octal escape value %d > 255", r)
+					return errorAt("octal escape value %d > 255", r)
 				}
 				p += 4
 				cols += 4
 			default:
-				l.src = l.src[p:]
-				return l.errorf("unknown escape")
+				return errorAt("unknown escape")
 			}
 		case '\n':
-			l.src = l.src[p:]
-			return l.errorf("newline in string")
+			return errorAt("newline in string")
 		default:
 			r, s := utf8.DecodeRune(l.src[p:])
 			if r == utf8.RuneError && s == 1 {
-				l.src = l.src[p:]
-				return l.errorf("invalid UTF-8 encoding")
+				return errorAt("invalid UTF-8 encoding")
 			} else if r == BOM {
 				return l.errorf(bomErrorMsg)
 			}
